@@ -73,10 +73,23 @@ impl Sub for NativeKey {
             let rng: Box<dyn rand::RngCore> = if i % 5 == 4 {
                 st.count("native_signatures_after_a_forced_restart");
                 Box::new(crate::util::RestartRng::new(c.msg_seed ^ i as u64, n, 1))
+            } else if i % 5 == 3 {
+                // a zero-biased stream: attempts straddle the norm bound and (Falcon-1024) the
+                // compressed length, so that some of these signatures follow a compression retry
+                st.count("native_signatures_from_a_zero_biased_stream");
+                Box::new(crate::util::BiasedRng::new(c.msg_seed ^ i as u64, 2200 + (mix(c.msg_seed ^ i as u64) % 2000) as u32, 400_000))
             } else {
                 Box::new(crate::util::chacha(c.msg_seed ^ i as u64))
             };
+            let _ = falcon_rust::verif_hooks::take_sign_counters();
             let sig = api::sign_with(msg, &key.sk, rng).to_bytes();
+            let (norm_retries, compress_retries) = falcon_rust::verif_hooks::take_sign_counters();
+            if compress_retries > 0 {
+                st.count(&format!("native_signatures_after_a_compression_retry_{}", n));
+            }
+            if norm_retries > 0 {
+                st.count(&format!("native_signatures_after_a_norm_retry_{}", n));
+            }
             let pqsig = keys::native_to_pqclean(&sig, n).ok_or_else(|| Fail::new("interop:reframe", "a native signature could not be re-framed"))?;
             let ok = pq::verify(n, &pqsig, msg, &key.pk_bytes).ok_or_else(|| Fail::new("interop:reference-rejects-lengths", format!("the reference wrappers refuse the byte lengths (pk {} bytes, signature {} bytes)", key.pk_bytes.len(), pqsig.len())))?;
             ensure!(ok, "interop:native-sig-rejected-by-reference", "Falcon-{}: the reference verifier rejects a signature made here (message of {} bytes, stripped signature of {} bytes)", n, msg.len(), pqsig.len());
